@@ -187,6 +187,7 @@ def selfcheck(d, text=None):
 RND_STRINGS = ["", "plain", 'q"uote', "back\\slash", "nl\nline", "cr\r\nlf", "tab\there", "\x00nul", "\x1b[0m", "\x7fdel",
                "café", "日本語", "\U0001F600", "  spaces  ", "#hash", "=eq", "a.b", "[br]", "'sq'", "${VAR}",
                "x" * 300, " ls", "﻿bom"]
+RND_STRINGS += ["trail\n", "\n", "\nlead", "two\n\n", "cr\r", "sp "]      # values whose last or first character is the line terminator
 
 
 def rnd_value(r, depth=0):
